@@ -180,6 +180,17 @@ def main(tier, replay=None):
             tcases.append({"name": "src/f." + ext, "minus": [r.choice(pool) for _ in range(r.randint(1, 2))], "plus": [r.choice(pool) for _ in range(r.randint(1, 2))],
                            "ctx": [r.choice(pool)], "themes": th, "cls": cls, "styles": r.choice(["default", "nosyntax", "mixed"]),
                            "extra": r.choice([[], ["--side-by-side"], ["--line-numbers"], ["--keep-plus-minus-markers"]])})
+        # lines at / beyond --max-syntax-highlighting-length: the part after the limit is not highlighted but still shown
+        # (trailing blanks, whitespace-error marks); the limit is put right at the end of the visible text
+        for i in range(n_bb // 3):
+            r = vlib.case_rng(chk.seed, PID, ("maxlen", i))
+            ext = r.choice(["rs", "py", "c", "sh", "json"])
+            line = r.choice(SNIPPETS[ext])
+            cls = r.choice(["dark", "light"])
+            pad = " " * r.randint(1, 8)
+            tcases.append({"name": "src/f." + ext, "minus": [line + pad], "plus": [line + pad, line + " x" + pad], "ctx": [line + pad],
+                           "themes": r.sample(DARK if cls == "dark" else LIGHT, 2), "cls": cls, "styles": "default",
+                           "extra": ["--max-syntax-highlighting-length", str(len(line) + r.choice([0, 0, 1, -3]))] + r.choice([[], ["--side-by-side"], ["--line-numbers"]])})
         # some of the seven hunk-line styles set to a style without `syntax` (each with its own background), the others
         # left at their defaults; a paired removed / added line so that emph and non-emph sections exist
         for i in range(n_bb // 2):
